@@ -475,6 +475,86 @@ def fold_conditional_accumulate(fn, ref_sigs: list) -> int:
     return n
 
 
+def unfold_ifexp_assign(fn, ref_sigs: list) -> int:
+    """`T = E[c ? A : B]` (exactly one conditional expression in the value, no call evaluated before its test)  ->
+    `if c: T = E[A]  else: T = E[B]`, kept only where the reference has the statement form (alignment score rises)."""
+    n = 0
+    for st in [x for x in _own_nodes(fn) if isinstance(x, ast.Assign)]:
+        if len(st.targets) != 1 or not isinstance(st.targets[0], (ast.Name, ast.Attribute)):
+            continue
+        ifx = [x for x in ast.walk(st.value) if isinstance(x, ast.IfExp)]
+        if len(ifx) != 1:
+            continue
+        inside_ifx = {id(x) for x in ast.walk(ifx[0])}
+        if any(isinstance(x, (ast.Call, ast.Await, ast.NamedExpr)) and id(x) not in inside_ifx for x in ast.walk(st.value)):
+            continue
+
+        def variant(repl):
+            class R(ast.NodeTransformer):
+                def visit_IfExp(self, node):
+                    return copy.deepcopy(repl)
+
+            v = R().visit(copy.deepcopy(st.value))
+            a = ast.Assign(targets=[copy.deepcopy(st.targets[0])], value=v)
+            ast.copy_location(a, st)
+            ast.fix_missing_locations(a)
+            return a
+
+        new = ast.If(test=copy.deepcopy(ifx[0].test), body=[variant(ifx[0].body)], orelse=[variant(ifx[0].orelse)])
+        ast.copy_location(new, st)
+        ast.fix_missing_locations(new)
+        before = alignment_score(fn, ref_sigs)
+        done = False
+        for holder in [fn] + list(_own_nodes(fn)):
+            for field in ("body", "orelse", "finalbody"):
+                lst = getattr(holder, field, None)
+                if isinstance(lst, list) and st in lst:
+                    i = lst.index(st)
+                    lst[i] = new
+                    if alignment_score(fn, ref_sigs) > before:
+                        n += 1
+                    else:
+                        lst[i] = st
+                    done = True
+                    break
+            if done:
+                break
+    return n
+
+
+def fold_pop_del(fn, ref_sigs: list) -> int:
+    """`d.pop(k)` as a statement (value unused)  <->  `del d[k]` (both raise KeyError / IndexError for a missing key),
+    whichever form the reference has at that place."""
+    n = 0
+    for st in [x for x in _own_nodes(fn) if isinstance(x, (ast.Expr, ast.Delete))]:
+        new = None
+        if isinstance(st, ast.Expr) and isinstance(st.value, ast.Call) and isinstance(st.value.func, ast.Attribute) and st.value.func.attr == "pop" and len(st.value.args) == 1 and not st.value.keywords:
+            new = ast.Delete(targets=[ast.Subscript(value=st.value.func.value, slice=st.value.args[0], ctx=ast.Del())])
+        elif isinstance(st, ast.Delete) and len(st.targets) == 1 and isinstance(st.targets[0], ast.Subscript) and not isinstance(st.targets[0].slice, ast.Slice):
+            new = ast.Expr(value=ast.Call(func=ast.Attribute(value=st.targets[0].value, attr="pop", ctx=ast.Load()), args=[st.targets[0].slice], keywords=[]))
+        if new is None:
+            continue
+        ast.copy_location(new, st)
+        ast.fix_missing_locations(new)
+        before = alignment_score(fn, ref_sigs)
+        done = False
+        for holder in [fn] + list(_own_nodes(fn)):
+            for field in ("body", "orelse", "finalbody"):
+                lst = getattr(holder, field, None)
+                if isinstance(lst, list) and st in lst:
+                    i = lst.index(st)
+                    lst[i] = new
+                    if alignment_score(fn, ref_sigs) > before:
+                        n += 1
+                    else:
+                        lst[i] = st
+                    done = True
+                    break
+            if done:
+                break
+    return n
+
+
 def fold_augassign(fn, ref_sigs: list) -> int:
     """`T = T op V`  ->  `T op= V` (T a name or attribute chain), kept only where the reference has the augmented form
     (alignment score rises).  Same value for numbers, bytes, tuples; for a list it differs only under aliasing."""
@@ -724,6 +804,12 @@ def normalise_module(modname: str, tree: ast.Module, source: str = "") -> dict:
                 k = fold_augassign(fn, r["stmts"])
                 if k:
                     entry["folded_augassign"] = k
+                k = unfold_ifexp_assign(fn, r["stmts"])
+                if k:
+                    entry["unfolded_ifexp_assign"] = k
+                k = fold_pop_del(fn, r["stmts"])
+                if k:
+                    entry["pop_del"] = k
             if "inlined" not in entry and r.get("stmts"):
                 # a hoist next to a real edit: keep the inlinings that bring statements back to their reference form
                 inl = inline_new_locals(fn, r["locals"], r["stmts"])
